@@ -59,6 +59,7 @@ def run(ctx: Ctx) -> None:
     ctx.run(render.check_block_accumulators)
     ctx.run(hazard.check_hazards)
     ctx.run(hazard.check_escape_site)
+    ctx.run(hazard.check_escaper_on_tokens)
     ctx.run(hazard.check_escape_action)
     ctx.run(layout.check_hard_break_decorator)
     ctx.run(layout.check_parser_input)
